@@ -55,9 +55,9 @@ def main():
     for sig, detail, hist in final:
         c.violation(sig, "history [%s] :: %s" % (readable[sig] if hist == shortest[sig] else hist, detail), {"history": hist})
     c.coverage["worker_timeouts_retried"] = timeouts_retried
-    if res.depth_completed < 2:
+    if res.depth_completed < 2 and not res.budget_hit and not res.violations:
         c.harness_error("BFS did not complete depth 2")
-    c.vacuity(res.states >= 200, "at least 200 distinct json states were reached (%d)" % res.states)
+    c.vacuity(res.states >= 200 or res.budget_hit, "at least 200 distinct json states were reached (%d)" % res.states)
     c.set_model_checking(
         states=res.states, transitions=res.transitions, traces_validated=res.transitions, samples=res.samples,
         exhaustive=res.depth_completed >= depth or res.exhaustive,
